@@ -38,3 +38,12 @@ rec('Snd21', pgn=INT, priority=INT, message_size=INT, num_packages=INT, data=TLi
     src_address=INT, dest_address=INT, next_packet_to_send=INT, next_wait_on_cts=INT)
 rec('Rcv21', pgn=INT, message_size=INT, num_packages=INT, next_packet=INT, max_cmdt_packages=INT,
     num_packages_max_rec=INT, data=TList(INT), deadline=REAL, src_address=INT, dest_address=INT)
+
+# ---- diagnostic messages
+cls('Dm1', _pgn=INT, _lamp_status=TRef('LampStatus'), _dtc_dic_list=TList(TRef('DtcDic')), _data=OCTETS,
+    _subscribers=TList(FUNC), _ca=TRef('ControllerApplication'), _msg_subscriber_added=BOOL)
+rec('LampStatus', pl=INT, awl=INT, rsl=INT, mil=INT)
+rec('DtcDic', spn=INT, fmi=INT, oc=INT)
+rec('Dm1Cookie', cb=TFunc(TTuple(TRef('LampStatus'), TList(TRef('DtcDic')))))
+cls('Dm22', _pgn=INT, _ca=TRef('ControllerApplication'))
+cls('Dm11', _pgn=INT, _ca=TRef('ControllerApplication'), _subscribers_req_clear=TList(FUNC), _subscribers_ack_clear=TList(FUNC))
